@@ -111,6 +111,7 @@ theorem read_written (le : LayerEnv) (hok : le.Ok) (lp : Bytes) (l' : Dir)
     (g3 : l'.get nEnvLaunch = launchNode (procDirs le.process ++ le.launch.map Entry.fileOf)) :
     ∃ le', readFromLayerDir lp l' = some le' ∧ le'.all = le.all ∧ le'.build = le.build ∧ le'.launch = le.launch ∧
       (∀ p, (procGet le'.process p).getD [] = (procGet le.process p).getD []) ∧
+      le'.process = (nonEmptyProcs le.process).foldl (fun a pd => procSet a pd.1 pd.2) [] ∧
       le'.pathsBuild = (readLayerPaths lp l' LayerEnv.empty Gen.layerPathSpecs).pathsBuild ∧
       le'.pathsLaunch = (readLayerPaths lp l' LayerEnv.empty Gen.layerPathSpecs).pathsLaunch := by
   have ra := readEnvEntry_written l' nEnv le.all hok.all g1
@@ -155,7 +156,7 @@ theorem read_written (le : LayerEnv) (hok : le.Ok) (lp : Bytes) (l' : Dir)
         exact readProcesses_dirs _ hneOk _ _
   unfold readFromLayerDir
   simp only [ra, rb, key.1, key.2]
-  refine ⟨_, rfl, rfl, rfl, rfl, ?_, rfl, rfl⟩
+  refine ⟨_, rfl, rfl, rfl, rfl, ?_, rfl, rfl, rfl⟩
   intro p
   simp only []
   rw [procGet_foldl_procSet _ (nonEmptyProcs_nodup _ hok.proc.nodup)]
@@ -177,5 +178,30 @@ theorem read_written (le : LayerEnv) (hok : le.Ok) (lp : Bytes) (l' : Dir)
       · have := (lookup_some_iff_mem _ (nonEmptyProcs_nodup _ hnd) p d).mpr
           ((mem_nonEmptyProcs le.process p d).mpr ⟨hm, hd⟩)
         rw [hq] at this; cases this
+
+theorem procSet_append_new (acc : List (Bytes × Delta)) (p : Bytes) (d : Delta) (h : p ∉ acc.map (·.1)) :
+    procSet acc p d = acc ++ [(p, d)] := by
+  induction acc with
+  | nil => rfl
+  | cons kv t ih =>
+    obtain ⟨k, x⟩ := kv
+    have hk : k ≠ p := fun e => h (by simp [e])
+    have ht : p ∉ t.map (·.1) := fun e => h (by simp [e])
+    simp [procSet, hk, ih ht]
+
+theorem foldl_procSet_nodup (L acc : List (Bytes × Delta)) (h : ((acc ++ L).map (·.1)).Nodup) :
+    L.foldl (fun a pd => procSet a pd.1 pd.2) acc = acc ++ L := by
+  induction L generalizing acc with
+  | nil => simp
+  | cons pd t ih =>
+    simp only [List.foldl_cons]
+    have hnotin : pd.1 ∉ acc.map (·.1) := by
+      rw [List.map_append, List.map_cons] at h
+      have := (List.nodup_append.mp h).2.2
+      intro hm
+      exact this _ hm _ (by simp) rfl
+    rw [procSet_append_new acc pd.1 pd.2 hnotin]
+    have : acc ++ [(pd.1, pd.2)] ++ t = acc ++ pd :: t := by simp
+    rw [ih (acc ++ [(pd.1, pd.2)]) (by rw [this]; exact h), this]
 
 end CnbVerif
